@@ -44,8 +44,14 @@ IdxCorrect == LET got == IdxRun(<<0, 0>>, TotalLen(contigs), <<>>) IN
    /\ Len(got) = TotalLen(contigs)
    /\ \A a \in 0..(TotalLen(contigs) - 1) : got[a + 1] = CoordOf(lens, a)
 
+\* the observable side of the same reference: the reference mapped onto itself with --repeat-mask (declarative MappedAln
+\* of the table built from the contigs); the real `map` must print exactly this, whatever its index looks like inside
+SelfT == BuildTable(<<contigs>>, <<"self">>, K, rc)
+SelfAln == MappedAln(contigs, K, Idx, SelfT, 1, FALSE, TRUE)
 Emit == (EmitReplay /\ phase = "done") =>
    PrintT(<<"REPLAY", ToJson([kind |-> "refidx", k |-> K, rc |-> rc, contigs |-> contigs,
+                              table |-> [k |-> K, rc |-> rc, names |-> <<"self">>, rows |-> SetToSeq({<<r[1], r[2]>> : r \in SelfT.rows})],
+                              selfaln |-> SelfAln,
                               index |-> [i \in 1..Len(Idx) |-> <<Idx[i].km, Idx[i].mid, Idx[i].pos, Idx[i].chrom, Idx[i].isrc>>],
                               repeats |-> SetToSortSeq(RepeatCoords(contigs, Idx, K), <),
                               coords |-> [a \in 1..TotalLen(contigs) |-> CoordOf(lens, a - 1)]])>>)
